@@ -2,6 +2,7 @@ mod c01;
 mod c02;
 mod extract;
 mod c03;
+mod c04;
 mod c14;
 mod c15;
 mod c16;
@@ -13,6 +14,7 @@ mod plonkrun;
 mod rec;
 mod rels;
 mod shapes;
+mod toy;
 mod util;
 
 use std::{
@@ -62,6 +64,7 @@ fn main() {
         "c01" => c01::main(rest),
         "c02" => c02::main(rest),
         "c03" => c03::main(rest),
+        "c04" => c04::main(rest),
         "c14" => c14::main(rest),
         "c15" => c15::main(rest),
         "c16" => c16::main(rest),
